@@ -273,12 +273,13 @@ def ec_hash160(b):
 # --------------------------------------------------------------------- history
 
 EDITS = ["out_amount", "out_script", "out_append", "out_remove", "in_sequence", "in_outpoint",
-         "in_append", "in_remove", "locktime", "version", "annex_set", "annex_clear"]
+         "in_append", "in_remove", "locktime", "version", "annex_set", "annex_clear",
+         "leaf_set", "leaf_inplace", "annex_append_inplace", "annex_pop_inplace", "sig_insert_inplace"]
 
 
 def op_strategy():
-    q = st.tuples(st.just("q"), st.sampled_from(["legacy", "bip143", "bip341"]), st.integers(0, 5),
-                  st.sampled_from(HT_TAP))
+    q = st.tuples(st.just("q"), st.sampled_from(["legacy", "bip143", "bip341", "bip341_script", "bip341_script"]),
+                  st.integers(0, 5), st.sampled_from(HT_TAP))
     e = st.tuples(st.just("e"), st.sampled_from(EDITS), st.integers(0, 5),
                   st.integers(0, 0xFFFFFFFF))
     return st.one_of(q, q, e)
@@ -296,6 +297,9 @@ def hist_cases(draw):
         "extra_ins": draw(st.lists(st.tuples(small_in(), spent_out()), min_size=3, max_size=3)),
         "extra_outs": draw(st.lists(small_out(), min_size=3, max_size=3)),
         "code": draw(script_code()),
+        "leaves": draw(st.lists(st.tuples(script_code(), st.sampled_from([0xC0, 0xC2, 0x66]), st.integers(0, 1),
+                                          st.lists(h256s(), max_size=2)), min_size=2, max_size=2)),
+        "ikey": draw(xonly_keys()),
         "ops": draw(st.lists(op_strategy(), min_size=2, max_size=tier_len)),
     }
 
@@ -312,6 +316,17 @@ def check_hist(case, ctx):
                  for i, s in case["extra_ins"]]
     extra_outs = [dict(o, script=toks(o["script"])) for o in case["extra_outs"]]
     t = build_tx(txd, spent)
+    leaves = []
+    for code_l, ver, par, path in case.get("leaves", []):
+        sb = txser.script_bytes(toks(code_l))
+        leaves.append((sb, bytes([ver | par]) + case["ikey"] + b"".join(bytes(h) for h in path)))
+
+    def split_witness(w):
+        """(items without annex, annex or None)"""
+        if len(w) >= 2 and w[-1][:1] == b"\x50":
+            return w[:-1], w[-1]
+        return w, None
+
     queried = set()
     edited_after_query = False
     requery = False
@@ -323,10 +338,9 @@ def check_hist(case, ctx):
             if fam != "bip341":
                 if ht == 0:
                     ht = 1
-            annex = None
-            w = txd["ins"][idx]["witness"]
-            if w and w[-1][:1] == b"\x50" and len(w) > 1:
-                annex = w[-1]
+            body, annex = split_witness(txd["ins"][idx]["witness"])
+            if fam == "bip341_script" and (len(body) < 2 or len(body[-1]) % 32 != 1 or len(body[-1]) < 33):
+                continue  # no well-formed script-path witness on this input at the moment
             ref_spent = [{"amount": s["amount"], "spk": txser.script_bytes(s["spk"])} for s in spent]
             try:
                 if fam == "legacy":
@@ -335,11 +349,16 @@ def check_hist(case, ctx):
                 elif fam == "bip143":
                     ref = sighash.bip143(txd, idx, code_b, spent[idx]["amount"], ht)
                     call = lambda: t.sig_hash_bip143(idx, witness_script=WitnessScript(code), hash_type=ht)  # noqa
+                elif fam == "bip341_script":
+                    lh = sighash.tapleaf_hash(body[-2], body[-1][0] & 0xFE)
+                    ref = sighash.bip341(txd, idx, ref_spent, ht, annex=annex, leaf_hash=lh)
+                    call = lambda: t.sig_hash_bip341(idx, 1, ht)  # noqa
+                    ctx.label("script_path_query")
                 else:
                     ref = sighash.bip341(txd, idx, ref_spent, ht, annex=annex)
                     call = lambda: t.sig_hash_bip341(idx, 0, ht)  # noqa
             except sighash.Invalid:
-                st_, got = attempt(lambda: t.sig_hash_bip341(idx, 0, ht))
+                st_, got = attempt(lambda: t.sig_hash_bip341(idx, 1 if fam == "bip341_script" else 0, ht))
                 require(st_ == "exc", "history/undefined_single_returns_digest")
                 continue
             st_, got = attempt(call)
@@ -409,6 +428,45 @@ def check_hist(case, ctx):
                 j = i % len(txd["ins"])
                 txd["ins"][j]["witness"] = []
                 t.tx_ins[j].witness = Witness()
+            elif kind == "leaf_set" and leaves:
+                j = i % len(txd["ins"])
+                sb, cb = leaves[v % 2]
+                w = [b"\x09" * 64, sb, cb]
+                txd["ins"][j]["witness"] = list(w)
+                t.tx_ins[j].witness = Witness(list(w))
+            elif kind == "leaf_inplace" and leaves:
+                # the tap script / control block of an existing script-path witness are replaced IN PLACE
+                j = i % len(txd["ins"])
+                body, annex = split_witness(txd["ins"][j]["witness"])
+                if len(body) >= 2:
+                    sb, cb = leaves[v % 2]
+                    k = 1 if annex is not None else 0
+                    items = t.tx_ins[j].witness.items
+                    items[-2 - k] = sb
+                    items[-1 - k] = cb
+                    mw = txd["ins"][j]["witness"]
+                    mw[-2 - k] = sb
+                    mw[-1 - k] = cb
+                    ctx.label("inplace_leaf_replaced")
+            elif kind == "annex_append_inplace":
+                j = i % len(txd["ins"])
+                body, annex = split_witness(txd["ins"][j]["witness"])
+                if annex is None and len(body) >= 1:
+                    a = b"\x50" + v.to_bytes(4, "big")
+                    t.tx_ins[j].witness.items.append(a)
+                    txd["ins"][j]["witness"].append(a)
+            elif kind == "annex_pop_inplace":
+                j = i % len(txd["ins"])
+                body, annex = split_witness(txd["ins"][j]["witness"])
+                if annex is not None:
+                    t.tx_ins[j].witness.items.pop()
+                    txd["ins"][j]["witness"].pop()
+            elif kind == "sig_insert_inplace":
+                j = i % len(txd["ins"])
+                if len(txd["ins"][j]["witness"]) >= 2:
+                    sig = v.to_bytes(4, "big") * 16
+                    t.tx_ins[j].witness.items.insert(0, sig)
+                    txd["ins"][j]["witness"].insert(0, sig)
     if n_q == 0:
         raise Discard("no query")
     ctx.nontrivial(requery)
@@ -417,14 +475,14 @@ def check_hist(case, ctx):
 
 SUBS = [
     Sub("digest_differential", check_diff, strategy=lambda tier: diff_cases(),
-        budget={"quick": 40000, "thorough": 1000000},
+        budget={"quick": 30000, "thorough": 1000000},
         required=[f"{a}|ht={h:#x}" for a in ALGOS
                   for h in (HT_TAP if ("341" in a or "p2tr" in a) else HT_LEGACY)]
         + ["annex", "single_out_of_range:legacy", "single_out_of_range:bip143",
            "single_out_of_range:bip341", "single_out_of_range:dispatch"],
         nontrivial_rule="hash type != ALL or more than one input"),
     Sub("history_independence", check_hist, strategy=lambda tier: hist_cases(), stateful=True,
-        budget={"quick": 12000, "thorough": 300000},
-        required=["edit:" + e for e in EDITS] + ["query_edit_query"],
+        budget={"quick": 8000, "thorough": 300000},
+        required=["edit:" + e for e in EDITS] + ["query_edit_query", "script_path_query", "inplace_leaf_replaced"],
         nontrivial_rule="history in which an algorithm family is queried, the tx edited, and the family queried again"),
 ]
